@@ -31,6 +31,8 @@ pub fn dispatch(
         "pf" => pf(args, thorough, seed, total, bounds),
         "sf" => sf(args, thorough, seed, total, bounds),
         "nl" => nl(args, thorough, seed, total, bounds),
+        "long" => long(args, thorough, seed, total, bounds),
+        "aliased" => aliased(args, thorough, seed, total, bounds),
         _ => return false,
     }
     true
@@ -981,4 +983,139 @@ fn nl(args: &Args, thorough: bool, seed: u64, total: &mut Report, bounds: &mut M
     });
     total.merge(rep);
     bounds.insert("NL".into(), json!({"needle_letters": String::from_utf8_lossy(&letters), "needle_len": [nmin, nmax], "needles": nt, "haystacks_per_needle": "3 variants x ((|letters|+1) x 5 x 3 pads + 2(m-1) suffix/prefix contexts + 1 tripled)"}));
+}
+
+/// Long haystacks (around every power of two from 64 to 4096) with ONE
+/// occurrence at each position near either end - or none - with and without
+/// decoys of the needle's candidate pair: the sizes at which substring code
+/// gated on a haystack / remainder length threshold is first entered.
+fn long(args: &Args, thorough: bool, seed: u64, total: &mut Report, bounds: &mut Map<String, Value>) {
+    let kinds = crate::parse_kinds_pub(&args.str("subjects", "memmem,finder,finder-nopre,rmemmem,rfinder"));
+    let mut needles: Vec<Vec<u8>> = vec![b"ab".to_vec(), b"aab".to_vec(), b"abcab".to_vec(), b"zq".to_vec(), b"a".to_vec()];
+    for l in [16usize, 32, 33, 130, 256] {
+        let common: Vec<u8> = b"e ".iter().copied().cycle().take(l).collect();
+        let mut a = common.clone();
+        a[0] = b'z';
+        a[l - 1] = b'q';
+        needles.push(a);
+        let mut b = common.clone();
+        b[l - 2] = b'z';
+        b[l - 1] = b'q';
+        needles.push(b);
+        needles.push(b"ab".iter().copied().cycle().take(l).collect());
+    }
+    let mut lens: Vec<usize> = vec![];
+    for p in [64usize, 128, 256, 512, 1024, 2048, 4096] {
+        lens.extend_from_slice(&[p - 1, p, p + 1]);
+    }
+    if thorough {
+        lens.extend_from_slice(&[8191, 8192, 8193, 65535, 65536, 65537]);
+    }
+    let rep = par::run_items(&needles, |_, needle, r| {
+        let mut ctx = Ctx::new();
+        ctx.set_needle(needle);
+        let subjects = build_all(r, &kinds, needle, None, seed);
+        let m = needle.len();
+        let pair = Pair::new(needle);
+        let mut h: Vec<u8> = vec![];
+        let mut order = 0u64;
+        for &len in &lens {
+            if len < m {
+                continue;
+            }
+            let last = len - m;
+            let mut positions: Vec<Option<usize>> = vec![None];
+            positions.extend((0..=last.min(40)).map(Some));
+            positions.extend((last.saturating_sub(40 + m)..=last).map(Some));
+            positions.sort();
+            positions.dedup();
+            for decoys in 0..3 {
+                for &pos in &positions {
+                    h.clear();
+                    h.resize(len, b'.');
+                    if let (1, Some(p)) = (decoys, pair) {
+                        // bare pair hits every 7 bytes
+                        let (i1, i2) = (p.index1() as usize, p.index2() as usize);
+                        let mut q = 0;
+                        while q + i1.max(i2) < len {
+                            h[q + i1] = needle[i1];
+                            h[q + i2] = needle[i2];
+                            q += 7;
+                        }
+                    } else if decoys == 2 {
+                        // the needle's first byte everywhere else
+                        for b in h.iter_mut() {
+                            *b = needle[0];
+                        }
+                        if m == 1 {
+                            continue;
+                        }
+                    }
+                    if let Some(p) = pos {
+                        // clear a window around the occurrence so that it is the only one
+                        for b in h[p.saturating_sub(1)..(p + m + 1).min(len)].iter_mut() {
+                            *b = b'.';
+                        }
+                        h[p..p + m].copy_from_slice(needle);
+                    } else if decoys == 2 && needle.iter().all(|&b| b == needle[0]) {
+                        continue;
+                    }
+                    order += 1;
+                    check_hay(&mut ctx, r, &subjects, needle, &h, Place::Plain, (order % 16) as usize, None, order);
+                }
+            }
+        }
+    });
+    total.merge(rep);
+    bounds.insert("long".into(), json!({"needles": needles.len(), "haystack_lens": lens, "occurrence": "none, at each of the first 41 and last 41+m positions", "backgrounds": ["filler", "bare pair hits every 7 bytes", "the needle's first byte everywhere"]}));
+}
+
+/// Aliased operands: the needle is a sub-slice of the haystack's own buffer
+/// (every pair of sub-slices of every buffer over {a,b} up to a length).
+fn aliased(args: &Args, thorough: bool, seed: u64, total: &mut Report, bounds: &mut Map<String, Value>) {
+    let kinds = crate::parse_kinds_pub(&args.str("subjects", "memmem,finder,iter-first,rmemmem,rfinder,twoway,rk,rtwoway,rrk"));
+    let maxl = if thorough { 9 } else { 8 };
+    let bufs = AllStrings { letters: b"ab".to_vec(), minlen: 0, maxlen: maxl }.all();
+    let rep = par::run_chunks(bufs.len() as u64, 4, |lo, hi, r| {
+        let mut ar = Arena::plain(1);
+        for bi in lo..hi {
+            let b = &bufs[bi as usize];
+            let n = b.len();
+            let placed: &[u8] = ar.place_fill(64 + (bi as usize % 8), b, b'a', b'a', 16);
+            for k in 0..=n {
+                for l in k..=n {
+                    let needle = &placed[k..l];
+                    let subjects = build_all(r, &kinds, needle, None, seed);
+                    for i in 0..=n {
+                        for j in i..=n {
+                            let hay = &placed[i..j];
+                            r.states += 1;
+                            for s in &subjects {
+                                r.evaluations += 1;
+                                r.nontrivial += 1;
+                                let got = guarded(|| s.built.run(hay));
+                                let problem = match got {
+                                    Err(msg) => Some(("panic", format!("panicked: {}", msg))),
+                                    Ok(subj::Ran::Pos(p)) => crate::judge(s.kind.sem(), p, needle, hay, None),
+                                    Ok(_) => None,
+                                };
+                                if let Some((class, what)) = problem {
+                                    r.violation(Violation {
+                                        class: class.into(),
+                                        key: ((n as u64) << 16) | (l - k) as u64,
+                                        what: format!("[{}] {} with needle = buffer[{}..{}] and haystack = buffer[{}..{}] of {}: {}", class, s.kind.name(), k, l, i, j, show(b), what),
+                                        replay_argv: vec!["aliased".into()],
+                                        detail: json!({"class": class, "subject": s.kind.name(), "buffer": hex(b), "needle": [k, l], "haystack": [i, j]}),
+                                    });
+                                }
+                            }
+                        }
+                    }
+                }
+            }
+        }
+    });
+    total.merge(rep);
+    total.sample(0, || json!({"buffer": "\"abaab\"", "needle": "buffer[1..3]", "haystack": "buffer[0..4]", "note": "both operands are views of one allocation"}));
+    bounds.insert("aliased".into(), json!({"buffers_over_ab_up_to": maxl, "operands": "every (needle sub-slice, haystack sub-slice) pair of the same buffer"}));
 }
